@@ -493,6 +493,10 @@ def _hessian_linearisation(ctx, nurbs_hess):
                     k += 1
                 elif t in ('0', '1:', ':1', '0:1'):
                     ctx.violated('R07.4', '%s.NurbsFunc.%s' % (G, mname), src(s), s, 'weight is the LAST component everywhere else')
+                elif src(s.value) == 'self.coeffs' and isinstance(idx, ast.Name) and idx.id in {a.arg for a in fi.node.args.args}:
+                    ctx.violated('R07.4', '%s.NurbsFunc.%s' % (G, mname), src(s), s,
+                                 'the caller\'s index `%s` is applied to the component axis of the homogeneous coefficients, which still contains the '
+                                 'weight as last entry: negative indices and open slices select the weight as if it were a component' % idx.id)
     ctx.met('R07.4', G + '.NurbsFunc', '%d slicing sites use the last component as weight' % k, cls.node, nontrivial=k > 0)
     ctx.floor('R07.4', 'weight slicing sites', k, 9)
 
@@ -569,6 +573,23 @@ def r07_5(ctx):
     t = src(init.node)
     ok = 'self.fixed_coord = lohi[0] if side == 0 else lohi[1]' in t and 'lohi = f.support[axis]' in t
     ctx.decide('R07.5', init.qual, 'fixed_coord = lohi[0] if side == 0 else lohi[1]', ok or None, init.node)
+    # single-point route of _BoundaryFunction: x holds the sdim = f.sdim-1 remaining coordinates in xyz order, the fixed
+    # coordinate of (zyx) axis `axis` of the parent goes to position (f.sdim-1) - axis = len(x) - axis = self.sdim - axis
+    ev = ctx.prog.func(G + '._BoundaryFunction.eval')
+    ins = [c for c in ast.walk(ev.node) if isinstance(c, ast.Call) and isinstance(c.func, ast.Attribute) and c.func.attr == 'insert' and len(c.args) == 2]
+    red = [s for s in own_nodes(init.node) if isinstance(s, ast.Assign) and src(s.targets[0]) == 'self.sdim']
+    reduced = bool(red) and src(red[0].value).replace(' ', '') in ('f.sdim-1', '-1+f.sdim')
+    if not ins:
+        ctx.undecided('R07.5', ev.qual, 'position of the fixed coordinate', ev.node, 'no insert() call')
+    else:
+        pos = src(ins[0].args[0])
+        norm = pos.replace('len(x)', 'SDIM')
+        if reduced:
+            norm = norm.replace('self.sdim', 'SDIM').replace('self.f.sdim', '(SDIM + 1)')
+        ctx.formula('R07.5', ev.qual, norm, 'SDIM - self.axis', ins[0],
+                    'the fixed coordinate is inserted at xyz position len(x) - axis (len(x) = self.sdim = parent.sdim - 1); any other position '
+                    'evaluates the parent at permuted coordinates while grid_eval stays correct', label='position of the fixed coordinate: ' + pos)
+        ctx.expect('R07.5', ev.qual, ins[0].args[1], 'self.fixed_coord', ins[0], 'inserted value is the fixed boundary coordinate', label='inserted value: ' + src(ins[0].args[1]))
 
 
 # ------------------------------------------------------------------ R07.6
